@@ -148,6 +148,9 @@ META = dict(
 META["rule"] += (
     " " + 'Added after the second round of seeded changes: read-only queries (distance-weighted measures, similarity, degree) are interleaved with the setters of a history; every 24th base case has N in {31,32,33,63,64,65} (thorough also 127,128,129,257).')
 
+META["rule"] += (
+    " " + 'Added later: `HilbertClimateNetwork.set_directed` as a history step; `clear_cache` / `cache_clear` and reads of the derived matrices (phase shift, coherence, correlation lag / strength) between setters.')
+
 G = 64.0
 GUARD = 1e-4
 
